@@ -1,6 +1,6 @@
 (* Correspondence vocabulary for C15: instantiate probes and histories over the splits
    world, each step carrying what the real cw4-group + splits + bank produced. *)
-From LP Require Import Splits.
+From LP Require Import Splits SplitsMigrate.
 
 Record obs := mkObs {
   o_ok : bool;                              (* the transaction succeeded *)
@@ -11,9 +11,16 @@ Record obs := mkObs {
   o_admin : option addr                     (* splits Admin{} after the step *)
 }.
 
+(* a step of a history: one of the splits/group/bank ops, or a migration of the splits
+   contract by `who` with the cw2 (name, version) that was stored when it ran *)
+Inductive cstep :=
+| SOp (o : op) (ob : obs)
+| SMig (who : addr) (name ver : String.string) (ob : obs).
+
 Inductive c15_case :=
 | CInst (ms : list member) (group_ok splits_ok : bool)
-| CHist (self : addr) (admin gadmin : option addr) (ms : list member) (steps : list (op * obs)).
+| CHist (self : addr) (admin gadmin : option addr) (ms : list member) (steps : list (op * obs))
+| CHistM (self wasm_admin : addr) (admin gadmin : option addr) (ms : list member) (steps : list cstep).
 
 (* bank messages are compared as multisets: both sides are sorted by (to, denom, amount) *)
 Definition msg_key (m : bmsg) : N * N * N :=
@@ -51,6 +58,25 @@ Fixpoint check_steps (w : world) (steps : list (op * obs)) : bool :=
       okb && check_steps w' rest
   end.
 
+(* after a migration step the very same observations must hold of the UNCHANGED world *)
+Definition check_mig (wa : addr) (w : world) (who : addr) (name ver : String.string) (ob : obs) : bool :=
+  Bool.eqb (is_ok (splits_migrate wa who name ver w)) (o_ok ob)
+  && match o_msgs ob with None => true | Some _ => false end
+  && forallb (fun x => let '(a, d, v) := x in bal (w_bank w) a d =? v) (o_bal ob)
+  && list_eqb member_eqb (page (w_members w)) (o_members ob)
+  && (total_weight (w_members w) =? o_total ob)
+  && option_eqb N.eqb (w_admin w) (o_admin ob).
+
+Fixpoint check_xsteps (wa : addr) (w : world) (steps : list cstep) : bool :=
+  match steps with
+  | [] => true
+  | SOp o ob :: rest =>
+      let '(okb, w') := check_obs w o ob in
+      okb && check_xsteps wa w' rest
+  | SMig who name ver ob :: rest =>
+      check_mig wa w who name ver ob && check_xsteps wa w rest
+  end.
+
 Definition c15_check (c : c15_case) : bool :=
   match c with
   | CInst ms gok sok =>
@@ -61,6 +87,11 @@ Definition c15_check (c : c15_case) : bool :=
   | CHist self admin gadmin ms steps =>
       match group_instantiate ms with
       | Ok g => check_steps (init_world self admin gadmin g) steps
+      | Err => false
+      end
+  | CHistM self wa admin gadmin ms steps =>
+      match group_instantiate ms with
+      | Ok g => check_xsteps wa (init_world self admin gadmin g) steps
       | Err => false
       end
   end.
